@@ -138,14 +138,16 @@ class JobControl:
         return result
 
     def stop_current(self) -> bool:
-        if self._active_agent is not None and self._active_agent.is_running():
-            if self._acquire_lock():
-                try:
-                    self._active_agent.request_stop()
-                finally:
-                    self._release_lock()
-                return True
-        return False
+        result = False
+        if self._acquire_lock():
+            try:
+                agent = self._active_agent
+                if agent is not None and agent.is_running():
+                    agent.request_stop()
+                    result = True
+            finally:
+                self._release_lock()
+        return result
 
     def has_jobs(self) -> bool:
         return (len(self._queue) > 0 or len(self._background) > 0 or
